@@ -96,7 +96,10 @@ def gen_integrals(rnd, norb):
                 h[p, q] = h[q, p] = round(rnd.uniform(-1, 1), 4)
     eri = np.zeros((norb,) * 4)
     dens = rnd.choice([1.0, 0.6, 0.3])
+    pattern = rnd.choice(["any", "any", "any", "coulomb_exchange"])     # (pp|qq) and (pq|pq) only: PPP / Hubbard-like sparsity
     for p, q, r, s in itertools.product(range(norb), repeat=4):
+        if pattern == "coulomb_exchange" and not ((p == q and r == s) or ((p, q) == (r, s))):
+            continue
         if p <= q and r <= s and (p, q) <= (r, s) and rnd.random() < dens:
             v = round(rnd.uniform(-0.5, 0.5), 4)
             for a_, b_, c_, d_ in ((p, q, r, s), (q, p, r, s), (p, q, s, r), (q, p, s, r), (r, s, p, q), (s, r, p, q), (r, s, q, p), (s, r, q, p)):
